@@ -85,6 +85,11 @@ class C15Executor(Executor):
                 ent[key] = a[key]
                 st.ghost["modattrs_entry"] = ent
             return [(st, a[key])]
+        if len(args) == 3 and isinstance(args[0], VFunc) and args[0].how == "ext":
+            # getattr(<object of another library>, name, default): whether the attribute exists is not known -- either the default
+            # or some value (the engine would resolve it to a dotted external name, which is always truthy)
+            s2 = st.fork()
+            return [(st, args[2]), (s2, VUnk(f"getattr:{args[1].const() if isinstance(args[1], VStr) else '?'}"))]
         return super().b_getattr(st, args, kwargs, node)
 
     def b_setattr(self, st, args, kwargs, node):
@@ -97,6 +102,10 @@ class C15Executor(Executor):
                 st.ghost["modattrs_entry"] = ent
             a[key] = args[2]
             st.ghost["modattrs"] = a
+            return [(st, NONE)]
+        from pyvc.values import VMod
+        if len(args) == 3 and isinstance(args[0], VMod):
+            st.ghost["foreign_stores"] = tuple(st.ghost.get("foreign_stores", ())) + (f"{self.loc(node)} setattr({args[0].name}, ...)",)
             return [(st, NONE)]
         return self.havoc_call(st, "setattr", args, node)
 
@@ -144,6 +153,20 @@ class C15Executor(Executor):
     # mutator call on one is recorded like a mutation of a published object; handing one out is not "a fresh object"
     def shared_mutated(self, st, node, what="module-level object"):
         st.ghost["published_mutated"] = tuple(st.ghost.get("published_mutated", ())) + (f"{self.loc(node)} ({what})",)
+
+    def store_slice(self, st, base, sl, v, node):
+        if isinstance(base, VExt) and base.sort == "C15Shared":
+            self.shared_mutated(st, node, "slice store into a module-level object")
+            return [st]
+        return super().store_slice(st, base, sl, v, node)
+
+    def store_attr(self, st, base, attr, v, node):
+        from pyvc.values import VMod
+        if isinstance(base, VMod) or (isinstance(base, VExt) and base.sort == "PyModule"):
+            # `module.name = value`: the same act as setattr(module, "name", value) -- recorded for the frame clauses
+            st.ghost["foreign_stores"] = tuple(st.ghost.get("foreign_stores", ())) + (f"{self.loc(node)} {getattr(base, 'name', 'module')}.{attr} = ...",)
+            return [st]
+        return super().store_attr(st, base, attr, v, node)
 
     def get_attr(self, st, base, attr, node):
         if isinstance(base, VExt) and base.sort == "C15Shared":
@@ -281,6 +304,10 @@ def contracts(reg):
     reg.module_consts[(PDF, prov[1])] = VFunc("ext", "C15.patcher")
     reg.ext_models["C15.patcher"] = call_patcher
 
+    pc_ = provider_contract(reg, prov, shapes)
+    if pc_ is not None:
+        out.append(pc_)
+
     def restored(c):
         a = c.st.ghost.get("modattrs", {})
         e = c.st.ghost.get("modattrs_entry", {})
@@ -367,6 +394,129 @@ def cache_contracts(reg):
         note="cache object abstract; _expand_key assumed to return a fresh list or raise ValueError (its contract is C20's)",
     ))
     return out
+
+
+def _bound_names(fn):
+    """Names bound inside `fn` (parameters, assignment / loop / with / except / import targets, nested defs), nested scopes included."""
+    out = set()
+    for n in ast.walk(fn):
+        if isinstance(n, (ast.FunctionDef, ast.AsyncFunctionDef, ast.Lambda)):
+            a = n.args
+            out |= {x.arg for x in a.posonlyargs + a.args + a.kwonlyargs} | ({a.vararg.arg} if a.vararg else set()) | ({a.kwarg.arg} if a.kwarg else set())
+            if not isinstance(n, ast.Lambda) and n is not fn:
+                out.add(n.name)
+        elif isinstance(n, ast.Name) and isinstance(n.ctx, (ast.Store, ast.Del)):
+            out.add(n.id)
+        elif isinstance(n, ast.ExceptHandler) and n.name:
+            out.add(n.name)
+        elif isinstance(n, (ast.Import, ast.ImportFrom)):
+            out |= {(x.asname or x.name.split(".")[0]) for x in n.names}
+    return out
+
+
+def provider_contract(reg, prov, shapes):
+    """Round 7.  The target-list provider of the char-map patcher under a contract VERIFIED by symbolic execution of its real body
+    (it was an ASSUMED shape, cross-checked only syntactically by `policy#returns-literal-target-lists`).  On every path:
+      * it returns (a list ALLOCATED BY THIS CALL of (module, constant attribute name) pairs, a wrapper factory DEFINED IN THIS CALL
+        whose free variables are module-level names / imports only -- no per-call state is captured), or raises AttributeError;
+      * the returned target list is one of the lists the patcher's call-site model forks over (same attribute names, same
+        "same module / different module" pattern): the call-site view kept for the patcher is IMPLIED by this contract;
+      * the provider itself patches nothing: no setattr / attribute store on another module (the only writer is the patcher,
+        whose restore obligation H1 covers exactly the returned targets)."""
+    try:
+        mod = loader.module(prov[0])
+        fn = mod.functions.get(prov[1])
+        if fn is None or fn.args.args or fn.args.posonlyargs or fn.args.vararg or fn.args.kwarg or fn.args.kwonlyargs:
+            return None
+        import builtins
+        mod_names = set(mod.functions) | set(mod.classes) | set(mod.assigns) | set(mod.imports) | set(dir(builtins))
+        import_aliases = {(x.asname or x.name.split(".")[0]) for n in ast.walk(fn) if isinstance(n, (ast.Import, ast.ImportFrom)) for x in n.names}
+        nested = {n.name: n for n in ast.walk(fn) if isinstance(n, ast.FunctionDef) and n is not fn}
+    except Exception:  # noqa
+        return None
+    from pyvc.values import VMod
+
+    def body(c):
+        return not c.at_call_site and c.ex.contract is me
+
+    def captured_state(fd):
+        bound = _bound_names(fd)
+        bad = []
+        for x in ast.walk(fd):
+            if isinstance(x, ast.Name) and isinstance(x.ctx, ast.Load) and x.id not in bound:
+                if x.id in import_aliases or x.id in nested:
+                    continue
+                if x.id not in mod_names or x.id in _bound_names(fn) - set(nested) - import_aliases:
+                    bad.append(x.id)
+        return sorted(set(bad))
+
+    def parts(c):
+        r = c.result
+        if not (isinstance(r, VTuple) and len(r.items) == 2):
+            return None, None, f"returns {r!r}: not a (targets, factory) pair"
+        tl, fac = r.items
+        if not isinstance(tl, VRef) or tl.ref in c.entry.heap or not c.st.obj(tl.ref).fresh or c.st.obj(tl.ref).kind != "list" or c.st.obj(tl.ref).data is None:
+            return None, None, "the target list is not a list allocated by this call"
+        items = []
+        for it in c.st.obj(tl.ref).data:
+            if not (isinstance(it, VTuple) and len(it.items) == 2 and isinstance(it.items[0], (VMod, VExt)) and isinstance(it.items[1], VStr)
+                    and it.items[1].const() is not None):
+                return None, None, f"target {it!r} is not a (module, constant name) pair"
+            m0 = it.items[0]
+            items.append((m0.name if isinstance(m0, VMod) else str(m0.t), it.items[1].const()))
+        return items, fac, ""
+
+    def shape_ok(c):
+        if not body(c):
+            return z3.BoolVal(True)
+        items, fac, why = parts(c)
+        if items is None:
+            c.note = why
+            return z3.BoolVal(False)
+        if not (isinstance(fac, VFunc) and fac.how == "closure" and isinstance(fac.a, ast.FunctionDef) and any((fac.a.name, fac.a.lineno) == (n.name, n.lineno) for n in ast.walk(fn) if isinstance(n, ast.FunctionDef) and n is not fn)):
+            c.note = f"the wrapper factory {fac!r} is not a function defined by this call"
+            return z3.BoolVal(False)
+        cap = captured_state(fac.a)
+        if cap:
+            c.note = f"the wrapper factory captures per-call state: {cap}"
+            return z3.BoolVal(False)
+        c.note = f"targets {items}; factory {fac.a.name} (line {fac.a.lineno})"
+        return z3.BoolVal(True)
+
+    def pattern(pairs):
+        first = {}
+        return [(first.setdefault(a, len(first)), n) for (a, n) in pairs]
+
+    def in_call_site_model(c):
+        if not body(c):
+            return z3.BoolVal(True)
+        items, _fac, why = parts(c)
+        if items is None:
+            c.note = why
+            return z3.BoolVal(False)
+        ok = any(pattern(items) == pattern(sh) for sh in shapes)
+        c.note = f"{items} " + ("is" if ok else "is NOT") + f" one of the {len(shapes)} target lists of the patcher's call-site model"
+        return z3.BoolVal(ok)
+
+    def patches_nothing(c):
+        if not body(c):
+            return z3.BoolVal(True)
+        w = tuple(c.st.ghost.get("foreign_stores", ())) + tuple(f"setattr(.., {k[1]!r}, ..)" for k in c.st.ghost.get("modattrs", {}))
+        w += tuple(c.st.ghost.get("published_mutated", ()))
+        if w:
+            c.note = "writes outside the call: " + ", ".join(w)
+        return z3.BoolVal(not w)
+
+    me = FnContract(
+        target=f"{prov[0]}::{prov[1]}", params=[],
+        ensures=[("returns-a-new-target-list-of-(module,-constant-name)-pairs-and-a-stateless-wrapper-factory", shape_ok),
+                 ("returned-targets-are-those-of-the-patcher's-call-site-model", in_call_site_model),
+                 ("patches-nothing-itself", patches_nothing)],
+        raises=[Raises("AttributeError", when=patches_nothing, label="no supported pypdf entry point: nothing was patched before")],
+        note="verified on the real body (round 7); the patcher's call site keeps the model `C15.patcher`, which this contract implies",
+    )
+    ROLE_OF[me.target] = "<char-map-patch-targets>"
+    return me
 
 
 _MUTABLE_CTORS = {"list", "dict", "set", "bytearray", "OrderedDict", "defaultdict", "deque", "Counter", "array"}
